@@ -456,6 +456,17 @@ func TestC11Big(t *testing.T) {
 			nold = 1
 			Ev.Probe("unchanged_file_around_window_wrap")
 		}
+		if rapid.IntRange(0, 5).Draw(rt, "matchthentail") == 0 {
+			// one or two old blocks right at the start (a block range that is still pending), then
+			// nothing but fresh data, a little more than the limit of a data operation
+			k := rapid.IntRange(1, 2).Draw(rt, "leadblocks")
+			lead := Bytes(rapid.Uint64().Draw(rt, "leadseed"), k*bs)
+			c.Old = [][]byte{lead}
+			nold = 1
+			tail := 4*MiB + rapid.SampledFrom([]int{1, bs / 2, bs - 1, bs, bs + 1}).Draw(rt, "tailover")
+			nw = append(append([]byte{}, lead...), Bytes(rapid.Uint64().Draw(rt, "tailseed"), tail)...)
+			Ev.Probe("pending_block_range_then_fresh_tail_just_over_the_limit")
+		}
 		c.New = nw
 		c.Preferred = int64(rapid.IntRange(-1, nold-1).Draw(rt, "preferred"))
 		sl := [][2]uint64{{0, 0}}
